@@ -32,6 +32,7 @@ func init() {
 }
 
 func c02History(rng *rand.Rand, id int, chron string, nBatches int, title string) []string {
+	withForce := title == "compacted"
 	h := &c03Hist{rng: rng}
 	out := []string{fmt.Sprintf("case %d %s", id, title), chron, "live 1000000"}
 	nk := 2 + rng.Intn(5)
@@ -49,6 +50,11 @@ func c02History(rng *rand.Rand, id int, chron string, nBatches int, title string
 		switch r := rng.Intn(10); {
 		case r < 6:
 			out = append(out, "sync")
+			if withForce && rng.Intn(3) == 0 {
+				// a compaction in the middle of the session (write trigger / ForceCompaction): the writes that
+				// follow, and their crash images, land on the compacted file
+				out = append(out, "force")
+			}
 		case r < 8:
 			out = append(out, "close", chron) // idle eviction and a later re-summon: lazy reopen
 		}
@@ -84,6 +90,18 @@ func c02Gen(rng *rand.Rand, tier string, w *bufio.Writer) {
 		}
 		emit(c02History(rng, id, chron, 2+rng.Intn(5), "hist"))
 	}
+	// sessions WITH compaction: crash images of the compaction itself and of every write after it
+	n4 := 6
+	if tier == "thorough" {
+		n4 = 40
+	}
+	for i := 0; i < n4; i++ {
+		chron := c03ChronLine(rng, false)
+		if strings.HasPrefix(chron, "chron cfg") {
+			chron = fmt.Sprintf("chron cfg %d 0.3", c02Pick(rng, 450, 900, 2000))
+		}
+		emit(c02History(rng, id, chron, 4+rng.Intn(4), "compacted"))
+	}
 	// a second crash: a first session dies (the chronicler is dropped without Close, or closed), the
 	// file is left with a torn tail (cut), a fresh chronicler loads it — the first recovery — and a
 	// resumed session follows; its crash images (every operation torn, writes since the last fsync
@@ -108,9 +126,33 @@ func c02Gen(rng *rand.Rand, tier string, w *bufio.Writer) {
 		second := c02History(rng, id, chron, 2+rng.Intn(3), "x")[3:]
 		emit(append(first, second...))
 	}
+	// damage in the middle of the file (one block header zeroed, intact blocks behind it): the open
+	// must not cut there — every block behind the damage would be destroyed
+	n3 := 2
+	if tier == "thorough" {
+		n3 = 10
+	}
+	for i := 0; i < n3; i++ {
+		chron := c03ChronLine(rng, false)
+		h := &c03Hist{rng: rng}
+		lines := []string{fmt.Sprintf("case %d midfile-damage", id), chron, "live 1000000"}
+		nb := 3 + rng.Intn(3)
+		for b := 0; b < nb; b++ {
+			lines = append(lines, "w "+h.put(1+rng.Intn(4))+","+h.put(1+rng.Intn(4)), "sync")
+		}
+		lines = append(lines, "close", "size", fmt.Sprintf("zap %d", rng.Intn(nb-1)), chron, "load", "w "+h.put(9), "size", chron, "load")
+		emit(lines)
+	}
 	fmt.Fprintln(w, "case tick real-swamp write tick")
 	for _, k := range []int{1, 2, 5} {
 		fmt.Fprintf(w, "tick %d\n", k)
+	}
+	// WriteInterval 0: every Save writes and syncs on its own (no tick); and a delete after a tick
+	for _, k := range []int{1, 3} {
+		fmt.Fprintf(w, "tick0 %d\n", k)
+	}
+	for _, k := range []int{2, 4} {
+		fmt.Fprintf(w, "tickdel %d\n", k)
 	}
 }
 
@@ -144,7 +186,11 @@ func c02Trace(in *bufio.Scanner, w *bufio.Writer) {
 
 // c02Tick: a real swamp with a real V2 chronicler; n saves, then one write tick; the file is
 // copied as it stands (a crash right after the tick returned) and loaded by a fresh chronicler.
-func c02Tick(n int) string {
+func c02Tick(n int) string { return c02TickMode(n, "tick") }
+
+// mode "tick": n saves, one write tick; "tick0": WriteInterval 0, n saves, no tick (Save itself writes and
+// syncs); "tickdel": n saves, tick, the last record deleted, tick.  Then the crash copy is loaded.
+func c02TickMode(n int, mode string) string {
 	root, err := os.MkdirTemp(c02TmpRoot(), "hxtick-")
 	if err != nil {
 		return "machinery"
@@ -157,7 +203,11 @@ func c02Tick(n int) string {
 	chron.CreateDirectoryIfNotExists()
 	meta := metadata.NewNoop()
 	meta.SetSwampName(swampName)
-	fss := &swamp.FilesystemSettings{ChroniclerInterface: chron, WriteInterval: time.Hour}
+	wi := time.Hour
+	if mode == "tick0" {
+		wi = 0
+	}
+	fss := &swamp.FilesystemSettings{ChroniclerInterface: chron, WriteInterval: wi}
 	sw := swamp.New(swampName, time.Hour, fss, func(*swamp.Event) {}, func(*swamp.Info) {}, func(name.Name) {}, meta)
 	sw.BeginVigil()
 	for i := 1; i <= n; i++ {
@@ -171,7 +221,13 @@ func c02Tick(n int) string {
 		_ = tr.Save(g)
 		tr.ReleaseTreasureGuard(g)
 	}
-	sw.WriteTreasuresToFilesystem() // what the WriteInterval ticker calls; returns = acknowledged
+	if mode != "tick0" {
+		sw.WriteTreasuresToFilesystem() // what the WriteInterval ticker calls; returns = acknowledged
+	}
+	if mode == "tickdel" {
+		_ = sw.DeleteTreasure(c02KeyName(n), false)
+		sw.WriteTreasuresToFilesystem()
+	}
 	sw.CeaseVigil()
 	// the crash: copy the file as it is on disk now, never calling Close
 	img := filepath.Join(root, "img")
